@@ -52,7 +52,7 @@ def dry_run(self, s, st, seq):
         sts = [d]
         if isinstance(s, ast.For):
             elem = core.lget(seq, fresh(INT, "dry_i").t)
-            sts = self.assign(s.target, self._elem_form(elem), d, None)
+            sts = [self._items_alias(s, x, self.ordinals.get(id(s))) for x in self.assign(s.target, self._elem_form(elem), d, None)]
         else:
             sts = [x for x, _ in self.ev_cond(s.test, d)]
         for cur in sts:
@@ -77,6 +77,8 @@ def _elem_form(self, elem):
 
 def havoc_written(self, st, written, types, keep=()):
     for kind, name in sorted(written):
+        if kind == "r":
+            continue
         if kind == "v":
             if name in keep:
                 continue
@@ -92,7 +94,8 @@ def havoc_written(self, st, written, types, keep=()):
             nv = fresh(proto.ty, name)
             st.assume(*wf(nv))
             st.env[name] = nv
-            st.alias.pop(name, None)
+            if ("r", name) in written:
+                st.alias.pop(name, None)
         elif kind == "h":
             cls, f = name.split(".", 1)
             ty = self.field_ty(cls, f)
@@ -133,7 +136,7 @@ def run_loop(self, s, st, seq):
     if st.dry:
         # in a dry run just execute the body once and continue after the loop
         outs = []
-        sts = self.assign(s.target, self._elem_form(core.lget(seq, fresh(INT, "dry_i").t)), st, None) if is_for else [st]
+        sts = [self._items_alias(s, x, ordinal) for x in self.assign(s.target, self._elem_form(core.lget(seq, fresh(INT, "dry_i").t)), st, None)] if is_for else [st]
         for cur in sts:
             for o in self.exec_block(s.body, cur):
                 if o.kind in ("normal", "continue", "break"):
@@ -162,6 +165,7 @@ def run_loop(self, s, st, seq):
         it = h.copy().assume(i.t < core.llen(seq))
         it.note(s.lineno, "iter")
         body_starts = self.assign(s.target, self._elem_form(core.lget(seq, i.t)), it, None) if self.feasible(it) else []
+        body_starts = [self._items_alias(s, b, ordinal) for b in body_starts]
         exit_st = h.copy().assume(i.t == core.llen(seq))
         exits = [exit_st] if self.feasible(exit_st) else []
     else:
@@ -192,6 +196,29 @@ def run_loop(self, s, st, seq):
                 o.st = _pop_lold(o.st)
             outs.append(o)
     return outs
+
+
+def _items_alias(self, s, st, ordinal):
+    """`for k, v in X.items()` with a container-valued v: v is an alias of X[k] (mutations write through).
+    The model binds v to the value at loop entry; an obligation states that X[k] still has that value."""
+    it = s.iter
+    if not (isinstance(it, ast.Call) and isinstance(it.func, ast.Attribute) and it.func.attr == "items"
+            and isinstance(it.func.value, ast.Name) and isinstance(s.target, ast.Tuple) and len(s.target.elts) == 2
+            and all(isinstance(t, ast.Name) for t in s.target.elts)):
+        return st
+    k, v = s.target.elts[0].id, s.target.elts[1].id
+    vv = st.env[v]
+    if not isinstance(vv.ty, (List, Set, Map)):
+        return st
+    x = self.lookup(it.func.value.id, st)
+    if x is None or not isinstance(x.ty, Map):
+        return st
+    cur = core.mget(x, st.env[k])
+    self.oblige(st, "safety", "alias:L%d" % ordinal, "%s[%s] is still the object bound to %s" % (it.func.value.id, k, v),
+                z3.And(core.mhas(x, st.env[k]), core.equals(cur, vv)), s.lineno)
+    st = st.copy()
+    st.alias[v] = ("sub", "%s[%s]" % (it.func.value.id, k))
+    return st
 
 
 def _pop_lold(st):
